@@ -431,3 +431,68 @@ def rule_stereo_codes(ck, repo, R):
     ck.decide('py_bond._order - 1' in w and 'py_bond._order = orders[k] + 1' in r, R, 'bond-order-code', None, 'bond orders are no longer stored as order - 1 / read as code + 1', file=PACK)
     ck.decide('data[cis_trans_shift + 3] = py_nan_int' in w and re.search(r'if d:\s*\n\s*py_cis_trans.append\(\(py_n, py_m, True\)\)', r) is not None, R, 'cis-trans-sign', None,
               'cis/trans sign byte is no longer written as the bool and read as non-zero = True', file=PACK)
+
+
+def rule_cis_trans_keys(ck, repo, R):
+    """the cis/trans block stores the TERMINAL pair of the cumulene; the reader resolves it back to the central bond through the inverse table"""
+    ck.rule(R, 'writer: the two atom numbers of a cis/trans record are molecule._stereo_cis_trans_terminals[<bond atom>] (terminal pair of the cumulene chain); '
+               'reader: MoleculeContainer.unpack resolves the first number through _stereo_cis_trans_centers (terminal -> central bond) before setting the '
+               'label, and skips records whose terminal is unknown; the three tables are built from the same chains with the same parity filter. '
+               'Indexing _bonds with the stored pair directly is right only for plain double bonds')
+    text = strip_comments(pyx_source(repo.root, PACK))
+    m1 = re.search(r'(\w+)\s*=\s*molecule\.(_stereo_cis_trans_\w+)', text)
+    ck.require(m1 is not None, 'writer: cis/trans table binding not found in _pack_v2.pyx')
+    var, table = m1.group(1), m1.group(2)
+    ck.decide(table == '_stereo_cis_trans_terminals', R, 'writer:table', table, f'the writer draws cis/trans atom pairs from `{table}`, the format stores terminal pairs (_stereo_cis_trans_terminals)',
+              file=PACK)
+    m2 = re.search(r'(\w+)\s*=\s*' + re.escape(var) + r'\[(\w+)\]\s*\n\s*(\w+)\s*,\s*(\w+)\s*=\s*\1', text)
+    ck.require(m2 is not None, 'writer: `py_tuple = py_stereo[atom]; tn, tm = py_tuple` not found')
+    tn, tm = m2.group(3), m2.group(4)
+    blk = re.findall(r'data\[cis_trans_shift(?: \+ \d)?\]\s*=\s*([^\n]+)', text)
+    ck.decide(len(blk) == 4 and tn in blk[0] and tn in blk[1] and tm in blk[1] and tm in blk[2], R, 'writer:record', blk,
+              f'the 4 record bytes {blk} are not composed from the terminal pair ({tn}, {tm})', file=PACK)
+    f = repo.func(f'{MOL}:MoleculeContainer.unpack')
+    ck.require(f is not None, 'MoleculeContainer.unpack not found')
+    loops = [n for n in ast.walk(f.node) if isinstance(n, ast.For) and isinstance(n.iter, ast.Name) and n.iter.id == 'cis_trans']
+    ck.require(len(loops) == 1 and isinstance(loops[0].target, ast.Tuple) and len(loops[0].target.elts) == 3, 'unpack: loop over the decoded cis/trans records not found')
+    lp = loops[0]
+    a, b, s = [src(e) for e in lp.target.elts]
+    stores = [n for n in ast.walk(lp) if isinstance(n, ast.Assign) and isinstance(n.targets[0], ast.Attribute) and n.targets[0].attr == '_stereo']
+    ck.require(len(stores) == 1, 'unpack: expected one `_stereo` store in the cis/trans loop')
+    st = stores[0]
+    # resolve local names used in the target (bond = mol.bond(*centers[n]))
+    local = {}
+    for n in ast.walk(f.node):
+        if isinstance(n, ast.Assign) and len(n.targets) == 1 and isinstance(n.targets[0], ast.Name):
+            local.setdefault(n.targets[0].id, []).append(n.value)
+    exprs, todo, seen = [], [st.targets[0].value], set()
+    while todo:
+        e = todo.pop()
+        exprs.append(e)
+        for n in ast.walk(e):
+            if isinstance(n, ast.Name) and n.id not in seen:
+                seen.add(n.id)
+                todo.extend(local.get(n.id, ()))
+    via = [n for e in exprs for n in ast.walk(e) if isinstance(n, ast.Subscript) and isinstance(n.value, ast.Attribute) and n.value.attr == '_stereo_cis_trans_centers'
+           and src(n.slice) in (a, b)]
+    via_alias = [n for e in exprs for n in ast.walk(e) if isinstance(n, ast.Subscript) and isinstance(n.value, ast.Name) and
+                 any(isinstance(v, ast.Attribute) and v.attr == '_stereo_cis_trans_centers' for v in local.get(n.value.id, ())) and src(n.slice) in (a, b)]
+    ck.decide(bool(via or via_alias), R, 'reader:resolves-terminal', src(st.targets[0]),
+              f'unpack sets `{src(st.targets[0])}` without resolving the stored terminal `{a}` through _stereo_cis_trans_centers: for cumulenes with 3, 5, .. '
+              f'double bonds the stored pair is not a bond and the label is lost or misplaced', file=f.file, line=st.lineno, func='MoleculeContainer.unpack', construct=src(st))
+    ck.decide(src(st.value) == s, R, 'reader:sign', src(st.value), f'the label stored is `{src(st.value)}` instead of the decoded sign `{s}`', file=f.file, line=st.lineno)
+    # the tables agree on chains, parity filter and terminals
+    ms = repo.cls('chython.algorithms.stereo:MoleculeStereo')
+    shapes = {}
+    for name in ('_stereo_cis_trans_centers', '_stereo_cis_trans_terminals', '_stereo_cis_trans_counterpart'):
+        g = ms.method(name)
+        ck.require(g is not None, f'{name} not found')
+        loops_ = [n for n in ast.walk(g.node) if isinstance(n, ast.For)]
+        ck.require(len(loops_) == 1, f'{name}: expected one loop')
+        l = loops_[0]
+        filt = [src(n.test) for n in l.body if isinstance(n, ast.If) and any(isinstance(x, ast.Continue) for x in n.body)]
+        ends = [src(n) for n in l.body if isinstance(n, ast.Assign) and isinstance(n.targets[0], ast.Tuple) and 'path[0]' in src(n.value)]
+        shapes[name] = (src(l.iter), tuple(filt), tuple(ends))
+    ck.decide(len(set(shapes.values())) == 1, R, 'tables:same-chains', list(shapes.values())[0],
+              f'the cis/trans tables no longer iterate the same chains with the same filter and terminals: {shapes}', file='chython/algorithms/stereo.py')
+    ck.floor(R, 5)
